@@ -47,6 +47,19 @@ func factoryNormalForm(fn *ssa.Function) factoryNF {
 				nf.why = "dynamic call"
 				return nf
 			}
+			// decorator: f(obj) stores constants into fields of its parameter and returns it
+			if obj != nil && isTPtr(x.Type()) && len(x.Call.Args) == 1 && x.Call.Args[0] == obj {
+				dec, ok := decoratorStores(cal)
+				if !ok {
+					nf.why = "the constructed value is handed to " + cal.Name() + ", which is not a plain flag setter"
+					return nf
+				}
+				for k, v := range dec {
+					nf.stores[k] = v
+				}
+				obj = x
+				continue
+			}
 			if obj == nil && isTPtr(x.Type()) {
 				// inner constructor: either NewT-like with constant args or another factory
 				allConst := true
@@ -115,6 +128,39 @@ func factoryNormalForm(fn *ssa.Function) factoryNF {
 	}
 	nf.why = "no return"
 	return nf
+}
+
+// decoratorStores: fn has one *T parameter, a single block, only constant stores into fields
+// of that parameter, and returns the parameter.
+func decoratorStores(fn *ssa.Function) (map[string]string, bool) {
+	if fn == nil || len(fn.Blocks) != 1 || len(fn.Params) != 1 || !isTPtr(fn.Params[0].Type()) {
+		return nil, false
+	}
+	out := map[string]string{}
+	for _, ins := range fn.Blocks[0].Instrs {
+		switch x := ins.(type) {
+		case *ssa.Store:
+			fa, ok := x.Addr.(*ssa.FieldAddr)
+			if !ok || fa.X != ssa.Value(fn.Params[0]) {
+				return nil, false
+			}
+			k, ok := x.Val.(*ssa.Const)
+			if !ok {
+				return nil, false
+			}
+			v := "nil"
+			if k.Value != nil {
+				v = k.Value.ExactString()
+			}
+			out[fieldNameOf(fa)] = v
+		case *ssa.Return:
+			return out, len(x.Results) == 1 && x.Results[0] == ssa.Value(fn.Params[0])
+		case *ssa.FieldAddr, *ssa.DebugRef:
+		default:
+			return nil, false
+		}
+	}
+	return nil, false
 }
 
 func engineAL(w *World, tier string) *EngineResult {
